@@ -45,6 +45,8 @@ def _impl_table(rows, th):
     try:
         with warnings.catch_warnings():
             warnings.simplefilter('ignore')
+            if len(rows) % 4 == 2:       # option values as numpy scalars
+                import implutil as _iu; th = _iu.np_scalars(th)
             out = detect_bursts_cycles(df, **th)
         return ['ok', proto.enc_bits(list(np.asarray(out['is_burst'].values).astype(bool)))]
     except Exception as e:
@@ -60,6 +62,12 @@ def _impl_signal(c):
         df = compute_features(proto.hex2arr(c['sig']), c['fs'], tuple(c['f_range']), center_extrema=c['center'], burst_method='cycles', threshold_kwargs=th)
         if repr(th) != snap or not df.equals(df0):
             raise AssertionError('second call with the same thresholds dictionary differs')
+        # the same thresholds through a Bycycle object with a history, given to the constructor under their documented SHORT names
+        import implutil
+        dfo = implutil.object_route(proto.hex2arr(c['sig']), c['fs'], tuple(c['f_range']), c['center'], 'cycles', None, dict(c['th']), None,
+                                    True, shorthand=(len(c['sig']) % 2 == 0))
+        if not dfo['is_burst'].equals(df['is_burst']):
+            raise AssertionError('Bycycle object (history, shorthand threshold names) labels differ from compute_features')
     rows = [[float(df[f].values[i]) for f in FEATS] for i in range(len(df))]
     return rows, ['ok', proto.enc_bits(list(df['is_burst'].values.astype(bool)))]
 
